@@ -110,6 +110,7 @@ class Unit:
         self.rewrites_applied = []
         self.assumption_notes = []
         self.sig_mismatch = []      # (fn, return type the contract was written for, return type found)
+        self.notes = []
         self.lemmas = []            # (name of a proof fn in the raw text, props): counted as one obligation each
 
     def src(self, rel):
@@ -312,9 +313,19 @@ def annotate_fn(unit, src, it, fnq, a: A, em: Emitter, canary=None):
     if a.loops:
         loops = rscan.find_loops(toks, br, body_lo, body_hi)
         for kidx, spec in a.loops.items():
-            if kidx >= len(loops):
-                raise LostAnchor(f'{fnq}: loop #{kidx} not found ({len(loops)} loops)')
-            kw_i, lb = loops[kidx]
+            if spec.get('header'):
+                # addressed by its header text (`for m in xs.iter()`): robust against loops added / removed before it; when no loop has that
+                # header the annotation is simply not emitted (the function is then checked against its contract without the invariant)
+                ht = [t.text for t in rscan.tokenize(spec['header'])]
+                cand = [(kw, lb_) for (kw, lb_) in loops if [t.text for t in toks[kw:kw + len(ht)]] == ht]
+                if not cand:
+                    unit.notes.append(f'{fnq}: no loop with header `{spec["header"]}`: its invariant is not emitted')
+                    continue
+                kw_i, lb = cand[0]
+            else:
+                if kidx >= len(loops):
+                    raise LostAnchor(f'{fnq}: loop #{kidx} not found ({len(loops)} loops)')
+                kw_i, lb = loops[kidx]
             if spec.get('ghost'):
                 if toks[kw_i].text != 'for':
                     raise LostAnchor(f'{fnq}: loop #{kidx} is not a for loop')
